@@ -18,6 +18,7 @@ import (
 )
 
 type chunk struct {
+	blob  *protoBlob // a whole file's content (directory source)
 	num   bool
 	width int
 	t     *Term // Int (num) or Str term
